@@ -65,7 +65,10 @@ var commonAssumptions = []string{
 
 func allProps() []*Prop {
 	return []*Prop{
+		propC01(),
+		propC03(),
 		propC13(),
+		propC16(),
 		propC02(),
 		propC04(),
 		propC05(),
@@ -101,6 +104,7 @@ func propC09() *Prop {
 				js = append(js, job("C09e/isolation[k=3,any refill]", "ratelimiter", "VerifC09Isolation", 3, 0))
 			}
 			js = append(js, job("C09h/cleanup", "ratelimiter", "VerifC09Cleanup"))
+			js = append(js, lbJob("C09f/gate[ServeHTTP + limiter + breaker]", "VerifC09Gate"))
 			for _, j := range js {
 				arith(j)
 			}
@@ -126,6 +130,7 @@ func propC07() *Prop {
 				js = append(js, job(fmt.Sprintf("C07a/histories[k=%d]", k), "circuitbreaker", "VerifC07Seq", k))
 			}
 			js = append(js, neg(job("C07a/negative-twin", "circuitbreaker", "VerifC07NegStep")))
+			js = append(js, lbJob("C07c/wiring[ServeHTTP + breaker + scripted backend]", "VerifC07Wiring"))
 			return js
 		},
 		Assumptions: commonAssumptions,
@@ -357,5 +362,66 @@ func propC13() *Prop {
 			"thorough": "<= 3 requests without optional features; arbitrary health state for every feature combination",
 		},
 		Outside: []string{"concurrent clients (interleaved decrement / mirror update)", "more than 2 backends", "1000-backend metrics cap"},
+	}
+}
+
+func propC01() *Prop {
+	return &Prop{
+		ID: "C01", Title: "End-to-end proxy transparency (requests, responses, streaming) - Helios-owned layers",
+		Jobs: func(tier string) []*sym.Job {
+			var js []*sym.Job
+			js = append(js, lbJob(fmt.Sprintf("C01a/writer-transparency[k=%d]", tierPick(tier, 3, 4)), "VerifC01Writer", tierPick(tier, 3, 4)))
+			js = append(js, lbJob("C01c/no-rewriting-hooks", "VerifC03Timeouts"))
+			js = append(js, job("C01b/middleware-transparency", "logging", "VerifC01Middleware"))
+			return js
+		},
+		Assumptions: append([]string{"claimed for the Helios-owned layers between net/http and httputil.ReverseProxy only: the status-capturing responseWriter, RequestContextMiddleware, and the per-backend proxy construction; hop-by-hop handling, framing, HTTP/2 and the Transport are the Go standard library and are trusted", "the client connection is a recording ResponseWriter implementing net/http's documented contract (first final WriteHeader wins and freezes the header snapshot, Write/Flush imply 200, 1xx are interim)", "flush requests are issued through the real http.NewResponseController(...).Flush() as ReverseProxy does"}, commonAssumptions...),
+		Bounds: map[string]string{
+			"quick":    "every sequence of <= 3 calls over {Header Set/Add/Del on 3 keys with any 1-byte value, WriteHeader(100..599), Write(0..2 bytes), flush request, Hijack}; middleware: every on/off combination, default/custom header names, client-supplied or absent IDs",
+			"thorough": "<= 4 calls",
+		},
+		Outside: []string{"bytes on the wire below the ResponseWriter interface (net/http, httputil, Transport): not encodable", "request body streaming"},
+	}
+}
+
+func propC03() *Prop {
+	return &Prop{
+		ID: "C03", Title: "Fault containment: no backend/client fault can wedge or crash the proxy - handler level",
+		Jobs: func(tier string) []*sym.Job {
+			var js []*sym.Job
+			k := tierPick(tier, 2, 3)
+			for f := int64(0); f < 8; f++ {
+				for _, s := range []int64{0, 1} {
+					if s == 1 && f != 0 && f != 7 {
+						continue
+					}
+					js = append(js, lbJob(fmt.Sprintf("C03/fault-sequences[%s,%s,k=%d]", strategyNames[s], featNames[f], k), "VerifC03Faults", s, f, k))
+				}
+			}
+			js = append(js, lbJob("C03/timeouts-never-disabled", "VerifC03Timeouts"))
+			return js
+		},
+		Assumptions: append([]string{"fault alphabet at the handler interface: backend answers any status 200..599 (5xx storm), connection refused (default error handler -> 502), response aborted mid-body (panic(http.ErrAbortHandler)); ReverseProxy.ServeHTTP replaced by the scripted model, natively the real ReverseProxy over a scripted RoundTripper", "network-level behaviour (hangs, slow bodies, resets, the latency bound itself) happens inside net/http's Transport and is trusted to the strictly positive timeouts established by C03/timeouts-never-disabled", "timeout settings up to 2^31 seconds"}, commonAssumptions...),
+		Bounds: map[string]string{
+			"quick":    "every sequence of <= 2 faulty exchanges with time passing, all 8 on/off combinations of breaker / limiter / passive checks, round_robin (and least_connections for none/all), 2 backends; then recovery within 2 requests",
+			"thorough": "<= 3 faulty exchanges",
+		},
+		Outside: []string{"refused/hung/slow connections at socket level, client disconnects (inside net/http)", "concurrent fault sequences (see C12)"},
+	}
+}
+
+func propC16() *Prop {
+	return &Prop{
+		ID: "C16", Title: "Request-ID / trace-ID propagation is consistent end to end",
+		Jobs: func(tier string) []*sym.Job {
+			return []*sym.Job{
+				job("C16a/propagation", "logging", "VerifC16Propagation"),
+				job("C16b/identifier-injectivity", "logging", "VerifC16Unique"),
+				neg(job("C16b/negative-twin", "logging", "VerifC16NegUnique")),
+			}
+		},
+		Assumptions: append([]string{"crypto/rand.Read fills the buffer with arbitrary bytes and returns no error (documented never to fail on Linux); uniqueness across requests is reduced to: distinct 12-byte draws give distinct identifiers (injectivity, decided for all 2^192 pairs of draws)", "client-supplied ID values are what net/http's parser can deliver: 1..3 printable ASCII bytes without surrounding white space, or absent", "downstream handler: a backend stub, or http.Error with 429 / 503 / 413"}, commonAssumptions...),
+		Bounds:  map[string]string{"quick": "all 4 enabled/disabled combinations x default/custom header names x client value absent or any 1..3 printable bytes x 4 downstream response kinds", "thorough": "same"},
+		Outside: []string{"10^5 concurrent generations (reduced to injectivity + crypto/rand's contract)", "the example request-id plugin overriding the middleware's value", "timestamp fallback when crypto/rand fails"},
 	}
 }
